@@ -21,15 +21,83 @@ STATE = "hippolyzer/lib/client/state.py"
 PRIMS = frozenset({"_handle_eq_event", "take_injected_events", "cache_last_poll_response",
                    "get_cached_poll_response", "register_region", "inject_event", "inject_message", "clear"})
 
-OWNERS = {
-    "_queued_events": {"EventQueueManager.__init__", "EventQueueManager.inject_event",
-                       "EventQueueManager.take_injected_events", "EventQueueManager.clear"},
-    "_last_ack": {"EventQueueManager.__init__", "EventQueueManager.cache_last_poll_response",
-                  "EventQueueManager.clear"},
-    "_last_payload": {"EventQueueManager.__init__", "EventQueueManager.cache_last_poll_response",
-                      "EventQueueManager.clear"},
-}
 REGION_ADDERS = {"BaseClientSession.register_region"}
+
+
+EQM = "EventQueueManager"
+QUEUE_OWNERS = {f"{EQM}.__init__", f"{EQM}.inject_event", f"{EQM}.take_injected_events", f"{EQM}.clear"}
+CACHE_OWNERS = {f"{EQM}.__init__", f"{EQM}.cache_last_poll_response", f"{EQM}.clear"}
+
+
+def self_attr(path: Optional[str]) -> Optional[str]:
+    """'self.x...' -> 'x' (first attribute of self), else None."""
+    if path and path.startswith("self.") and len(path) > 5:
+        return path.split(".")[1].replace("[]", "").replace("()", "")
+    return None
+
+
+def expand_path(tree, e) -> Optional[str]:
+    """Access path of e with a leading single-definition local replaced by what it aliases."""
+    p = ap(e)
+    if not p:
+        return None
+    head = p.split(".")[0]
+    if head != "self" and "(" not in head and "[" not in head:
+        d = single_def(tree, head)
+        if d is not None and ap(d):
+            return ap(d) + p[len(head):]
+    return p
+
+
+def discover_queue_field(ctx) -> str:
+    """The injection queue: the attribute inject_event appends its event to (else the one
+    take_injected_events hands out)."""
+    inj = Fn(ctx, f"{EQM}.inject_event")
+    ev = inj.params[1] if len(inj.params) > 1 else None
+    cands = [self_attr(ap(c.func.value)) for c in find_calls(inj.tree, "append", into_defs=False)
+             if isinstance(c.func, ast.Attribute) and c.args and ap(c.args[0]) == ev]
+    cands = [c for c in cands if c]
+    if not cands:
+        tk = Fn(ctx, f"{EQM}.take_injected_events")
+        for r in [n for n in walk(tk.tree) if isinstance(n, ast.Return) and n.value is not None]:
+            a_ = self_attr(ap(strip_copy(origin(tk.tree, r.value))[0]))
+            if a_:
+                cands.append(a_)
+    if len(set(cands)) != 1:
+        raise AnalysisError(f"cannot identify the injection queue attribute of {EQM} (candidates {sorted(set(cands))})")
+    return cands[0]
+
+
+def discover_cache(ctx):
+    """Where cache_last_poll_response keeps (ack, payload): role -> component access path, plus the store
+    statements and the self attributes involved."""
+    repo = ctx.repo
+    cf = Fn(ctx, f"{EQM}.cache_last_poll_response")
+    pars = {"ack": cf.params[1] if len(cf.params) > 1 else None, "payload": cf.params[2] if len(cf.params) > 2 else None}
+    comp: Dict[str, str] = {}
+    sts: Dict[str, list] = {"ack": [], "payload": []}
+    attrs = set()
+    for s_ in stores(cf.tree, into_defs=False):
+        if s_.kind != "assign" or not self_attr(s_.path):
+            continue
+        attrs.add(self_attr(s_.path))
+        v = s_.value
+        for role, par in pars.items():
+            if par is not None and ap(v) == par:
+                comp[role] = s_.path
+                sts[role].append(s_)
+        if isinstance(v, ast.Call):
+            ci = repo.resolve_class(ap(v.func) or "", cf.fi.module)
+            fields = [st.target.id for st in ci.node.body if isinstance(st, ast.AnnAssign) and isinstance(st.target, ast.Name)] \
+                if ci is not None else []
+            bound = {fields[i]: e for i, e in enumerate(v.args) if i < len(fields)}
+            bound.update({k.arg: k.value for k in v.keywords if k.arg})
+            for fld, e in bound.items():
+                for role, par in pars.items():
+                    if par is not None and ap(e) == par:
+                        comp[role] = f"{s_.path}.{fld}"
+                        sts[role].append(s_)
+    return cf, comp, sts, attrs
 
 
 class Fn:
@@ -288,6 +356,27 @@ def r1(ctx, m: RespModel):
         ctx.ob("C17.R1", f"MITMProxyEventManager._handle_eq_event: {norm(r)} only on the addons' verdict", ok, eq.w(r),
                "an event is reported swallowed although no addon asked for it: it never reaches the viewer")
     ctx.floor("C17.R1", "returns of _handle_eq_event", nret, 2)
+    # the wrapper for non-templated events must accept any LLSD body: it runs unguarded inside the filter, so an
+    # exception there makes the whole response pass through unprocessed
+    fe = ctx.repo.fn("Message.from_eq_event")
+    uses = [c for c in find_calls(eq.tree, "from_eq_event", into_defs=False)]
+    ctx.floor("C17.R1", "from_eq_event call in _handle_eq_event", len(uses), 1)
+    a_ = fe.node.args
+    evp = [p.arg for p in a_.posonlyargs + a_.args][-1]
+    for c in calls(fe.node):
+        for k in c.keywords:
+            if k.arg is not None:
+                continue
+            e, o = k.value, origin(fe.node, k.value)
+            if evp not in {n.id for x in (e, o) for n in ast.walk(x) if isinstance(n, ast.Name)}:
+                continue
+            want = {norm(e), norm(o)}
+            ok = any(pol and isinstance(t, ast.Call) and isinstance(t.func, ast.Name) and t.func.id == "isinstance"
+                     and len(t.args) == 2 and norm(t.args[0]) in want for t, pol in facts(c, fe.node))
+            ctx.ob("C17.R1", f"Message.from_eq_event: **{norm(e)} only for a body known to be a mapping", ok, ctx.w(fe, c),
+                   f"the event body comes off the wire and may be any LLSD value; `**` of a non-mapping raises TypeError "
+                   f"in the middle of the filter, the response then reaches the viewer unprocessed (swallowed events "
+                   f"delivered, injected events missing)")
 
 
 def _merge_stmts(m: RespModel):
@@ -319,14 +408,15 @@ def r2(ctx, m: RespModel):
                        "the events-carrying path, and its result is appended after the simulator's events")
     fn, tree = m.fn, m.fn.tree
     K = "MITMProxyEventManager._handle_response"
-    for q in sorted({q for qs in OWNERS.values() for q in qs}):
+    for q in sorted(QUEUE_OWNERS | CACHE_OWNERS):
         repo.fn(q)
-    for field, owners in OWNERS.items():
+    Q = discover_queue_field(ctx)
+    _cf, _comp, _sts, cache_attrs = discover_cache(ctx)
+    for field, owners, rid in [(Q, QUEUE_OWNERS, "C17.R2")] + [(a_, CACHE_OWNERS, "C17.R3") for a_ in sorted(cache_attrs)]:
         found = {}
         for f, st in fast_writers_of(repo, field):
             found.setdefault(f.qual, (f, st))
-        ctx.floor("C17.R2", f"writer functions of {field}", len(found), 2)
-        rid = "C17.R2" if field == "_queued_events" else "C17.R3"
+        ctx.floor(rid, f"writer functions of {field}", len(found), 2)
         for q, (f, st) in sorted(found.items()):
             ctx.ob(rid, f"{field} written by {q}", q in owners, ctx.w(f, st.node), f"not an owner ({sorted(owners)})")
     sites = fast_callers_of(repo, "take_injected_events")
@@ -380,13 +470,13 @@ def r2(ctx, m: RespModel):
     if len(rets) == 1 and rets[0].value is not None:
         rv = origin(tk.tree, rets[0].value)
         base, copied = strip_copy(rv)
-        from_q = (ap(base) or "").endswith("._queued_events")
+        from_q = self_attr(ap(base)) == Q
         ctx.ob("C17.R2", "take_injected_events returns the queued events", from_q, tk.w(rets[0]),
                f"returned value is {norm(rv)}")
-        rebinds = [s for s in stores(tk.tree, into_defs=False) if s.path.endswith("._queued_events") and s.kind == "assign"
+        rebinds = [s for s in stores(tk.tree, into_defs=False) if self_attr(s.path) == Q and s.path.count(".") == 1 and s.kind == "assign"
                    and ((isinstance(s.value, ast.List) and not s.value.elts) or
                         (isinstance(s.value, ast.Call) and ap(s.value.func) == "list" and not s.value.args))]
-        clears = [s for s in stores(tk.tree, into_defs=False) if s.path.endswith("._queued_events")
+        clears = [s for s in stores(tk.tree, into_defs=False) if self_attr(s.path) == Q
                   and s.kind == "mutcall" and s.method == "clear"]
         resets = rebinds + (clears if copied else [])
         rn = set(n for s in resets for n in tk.nodes(s.node))
@@ -406,7 +496,7 @@ def r2(ctx, m: RespModel):
     inj = Fn(ctx, "EventQueueManager.inject_event")
     ev = inj.params[1] if len(inj.params) > 1 else None
     apps = [c for c in find_calls(inj.tree, "append", into_defs=False) if isinstance(c.func, ast.Attribute)
-            and (ap(c.func.value) or "").endswith("._queued_events") and c.args and ap(c.args[0]) == ev]
+            and self_attr(ap(c.func.value)) == Q and c.args and ap(c.args[0]) == ev]
     wit = must_pass(inj.cfg, [n for c in apps for n in inj.nodes(c)])
     ctx.ob("C17.R2", "inject_event queues its event on every normal path", bool(apps) and wit is None, inj.fi.where,
            "an injected event is silently not queued", inj.describe(wit))
@@ -483,15 +573,13 @@ def r3(ctx, m: RespModel):
         wit = None if benign else must_pass(fn.cfg, cn, starts=m.anchor_nodes(), targets=fmt_nodes) if fmt_nodes else ["no format"]
         ctx.ob("C17.R3", f"{K}: caching happens on every path from the filter to the rewritten body", wit is None, fn.w(c),
                "", fn.describe(wit) if fmt_nodes else None)
-    # EventQueueManager.cache_last_poll_response / get_cached_poll_response
-    cf = Fn(ctx, "EventQueueManager.cache_last_poll_response")
-    for field, idx in (("_last_ack", 1), ("_last_payload", 2)):
-        par = cf.params[idx] if len(cf.params) > idx else None
-        sts = [s for s in stores(cf.tree, into_defs=False) if s.kind == "assign" and s.path.endswith("." + field)
-               and ap(s.value) == par]
-        wit = must_pass(cf.cfg, [n for s in sts for n in cf.nodes(s.node)])
-        ctx.ob("C17.R3", f"cache_last_poll_response stores {field} from parameter {idx}", bool(sts) and wit is None,
-               cf.fi.where, "", cf.describe(wit))
+    # EventQueueManager.cache_last_poll_response / get_cached_poll_response (fields found structurally)
+    cf, comp, csts, cache_attrs = discover_cache(ctx)
+    for role, idx in (("ack", 1), ("payload", 2)):
+        wit = must_pass(cf.cfg, [n for s_ in csts[role] for n in cf.nodes(s_.node)])
+        ctx.ob("C17.R3", f"cache_last_poll_response stores the {role} from parameter {idx}", role in comp and wit is None,
+               cf.fi.where, f"no store of parameter {idx} into an attribute of self on every normal path "
+                            f"(found {comp.get(role)})", cf.describe(wit))
     gf = Fn(ctx, "EventQueueManager.get_cached_poll_response")
     gpar = gf.params[1] if len(gf.params) > 1 else None
     pay_rets = 0
@@ -499,19 +587,45 @@ def r3(ctx, m: RespModel):
         v = origin(gf.tree, r.value) if r.value is not None else None
         if v is None or (isinstance(v, ast.Constant) and v.value is None):
             continue
-        if not (ap(v) or "").endswith("._last_payload"):
-            ctx.ob("C17.R3", f"get_cached_poll_response returns the cached payload or None: {norm(r)}", False, gf.w(r))
+        if expand_path(gf.tree, v) != comp.get("payload"):
+            ctx.ob("C17.R3", f"get_cached_poll_response returns the cached payload or None: {norm(r)}", False, gf.w(r),
+                   f"returns {expand_path(gf.tree, v)}, the payload is kept in {comp.get('payload')}")
             continue
         pay_rets += 1
         fs = facts(r, gf.tree)
         eq = [1 for e, pol in fs if isinstance(e, ast.Compare) and len(e.ops) == 1 and (
             (isinstance(e.ops[0], ast.Eq) and pol) or (isinstance(e.ops[0], ast.NotEq) and not pol)) and
-            {(ap(e.left) or "").split(".")[-1], (ap(e.comparators[0]) or "").split(".")[-1]} == {"_last_ack", gpar}]
+            {expand_path(gf.tree, e.left), expand_path(gf.tree, e.comparators[0])} == {comp.get("ack"), gpar}]
         ctx.ob("C17.R3", "get_cached_poll_response serves the cache exactly when the request's ack equals the cached ack",
                len(eq) == 1 and len(fs) == 1, gf.w(r),
                f"guard {[(norm(e), p) for e, p in fs]}: a repeated poll with the same ack (including the first, "
                f"undef ack) must be answered from the cache")
     ctx.ob("C17.R3", "get_cached_poll_response can return the cached payload", pay_rets >= 1, gf.fi.where)
+
+    # teardown: EventQueueManager.clear resets queue and cache; ProxiedRegion.mark_dead always reaches it
+    Q = discover_queue_field(ctx)
+    ec = Fn(ctx, f"{EQM}.clear")
+    for field in [Q] + sorted(cache_attrs):
+        rs = [n for s_ in stores(ec.tree, into_defs=False) if self_attr(s_.path) == field and s_.path.count(".") == 1
+              and (s_.kind == "assign" or (s_.kind == "mutcall" and s_.method == "clear")) for n in ec.nodes(s_.node)]
+        wit = must_pass(ec.cfg, rs)
+        ctx.ob("C17.R3", f"{EQM}.clear resets {field} on every normal path", bool(rs) and wit is None, ec.fi.where,
+               "state of the torn-down event queue leaks into the region's next queue", ec.describe(wit))
+    pr = repo.cls("ProxiedRegion", REG)
+    init = pr.methods.get("__init__")
+    ctx.require(init is not None, "ProxiedRegion.__init__ vanished")
+    eq_attrs = {self_attr(s_.path) for s_ in stores(init.node, into_defs=False) if s_.kind == "assign"
+                and isinstance(s_.value, ast.Call) and (ap(s_.value.func) or "").split(".")[-1] == EQM}
+    eq_attrs.discard(None)
+    ctx.require(len(eq_attrs) == 1, f"ProxiedRegion.__init__ no longer creates exactly one {EQM}")
+    eqa = next(iter(eq_attrs))
+    md = Fn(ctx, "ProxiedRegion.mark_dead")
+    cl = [c for c in find_calls(md.tree, "clear", into_defs=False) if isinstance(c.func, ast.Attribute)
+          and ap(c.func.value) == f"{md.params[0]}.{eqa}"]
+    wit = must_pass(md.cfg, [n for c in cl for n in md.nodes(c)])
+    ctx.ob("C17.R3", f"ProxiedRegion.mark_dead clears {eqa} on every normal path", bool(cl) and wit is None, md.fi.where,
+           "a teardown path leaves the replay cache / injection queue of the dead event queue in place: it is replayed "
+           "into (or delivered with) the region's next event queue", md.describe(wit))
 
     # request side
     rq = Fn(ctx, "MITMProxyEventManager._handle_request")
@@ -570,57 +684,74 @@ def r4(ctx):
                f"raises for ordinary events and aborts the whole response rewrite")
         ctx.ob("C17.R4", "_handle_eq_event: register_region not in a loop",
                not any(isinstance(x, (ast.For, ast.While)) for x in ancestors(c)), eq.w(c))
-    # BaseClientSession.register_region
+    # BaseClientSession.register_region (the search loop may live in a helper the function calls)
     f = Fn(ctx, "BaseClientSession.register_region")
     addr = f.params[1] if len(f.params) > 1 else None
     apps = [c for c in find_calls(f.tree, "append", into_defs=False) if isinstance(c.func, ast.Attribute)
             and (ap(c.func.value) or "").endswith(".regions")]
     ctx.floor("C17.R4", "regions.append in register_region", len(apps), 1)
-    loops = []
-    for lp in [n for n in walk(f.tree) if isinstance(n, ast.For) and (ap(strip_copy(n.iter)[0]) or "").endswith(".regions")]:
-        v = ap(lp.target)
-        for cmp_ in [x for x in walk(lp) if isinstance(x, ast.Compare) and len(x.ops) == 1 and isinstance(x.ops[0], ast.Eq)]:
-            sides = {ap(cmp_.left), ap(cmp_.comparators[0])}
-            if sides == {f"{v}.circuit_addr", addr}:
-                loops.append((lp, cmp_))
-    ctx.ob("C17.R4", "register_region searches session.regions by circuit address", len(loops) >= 1, f.fi.where)
-    for c in apps:
-        an = set(f.nodes(c))
-        for lp, cmp_ in loops:
-            heads = set(f.cfg.nodes_for(lp))
-            dom = normal_path(f.cfg, [f.cfg.entry], lambda n: n in an, lambda n: n in heads)
-            back = normal_path(f.cfg, list(an), lambda n: n in heads)
+    cands = [(f, addr, None)]
+    selfname = f.params[0] if f.params else "self"
+    for c in calls(f.tree):
+        if isinstance(c.func, ast.Attribute) and isinstance(c.func.value, ast.Name) and c.func.value.id == selfname \
+                and f.fi.cls is not None:
+            h = repo.lookup_method(f.fi.cls, c.func.attr)
+            if h is None or h == f.fi:
+                continue
+            for pname, e in bind_call(h, c).items():
+                if ap(e) == addr and not pname.startswith("#"):
+                    cands.append((Fn(ctx, h.qual, h.module.rel), pname, c))
+    found = []
+    for cf, a_name, via in cands:
+        for lp in [n for n in walk(cf.tree) if isinstance(n, ast.For) and (ap(strip_copy(n.iter)[0]) or "").endswith(".regions")]:
+            v = ap(lp.target)
+            for cmp_ in [x for x in walk(lp) if isinstance(x, ast.Compare) and len(x.ops) == 1 and isinstance(x.ops[0], ast.Eq)]:
+                if {ap(cmp_.left), ap(cmp_.comparators[0])} == {f"{v}.circuit_addr", a_name}:
+                    found.append((cf, lp, cmp_, via))
+    ctx.ob("C17.R4", "register_region searches session.regions by circuit address", len(found) >= 1, f.fi.where,
+           "no loop over <session>.regions comparing <region>.circuit_addr with the announced address in "
+           "register_region or a helper it passes the address to")
+    for cf, lp, cmp_, via in found:
+        heads = set(cf.cfg.nodes_for(lp))
+        ifs = [a for a in ancestors(cmp_) if isinstance(a, ast.If)]
+        test_if = ifs[0] if ifs else None
+        flag = None
+        if test_if is None:  # comparison hoisted into a local flag that is tested afterwards
+            st_ = enclosing_stmt(cmp_)
+            if isinstance(st_, ast.Assign) and len(st_.targets) == 1 and isinstance(st_.targets[0], ast.Name) \
+                    and st_.value is cmp_ and single_def(cf.tree, st_.targets[0].id) is cmp_:
+                flag = st_.targets[0].id
+                test_if = next((x for x in walk(lp) if isinstance(x, ast.If) and any(
+                    isinstance(e, ast.Name) and e.id == flag and p for e, p in atoms(x.test, True))), None)
+
+        def is_match(e, cmp_=cmp_, flag=flag):
+            return e is cmp_ or (flag is not None and isinstance(e, ast.Name) and e.id == flag)
+        if test_if is not None:
+            pre = facts(test_if, lp) + (facts(enclosing_stmt(cmp_), lp) if flag else [])
+            conj = [e for e, p in atoms(test_if.test, True) if not is_match(e)]
+            ctx.ob("C17.R4", "register_region: every region with the announced circuit address ends the search",
+                   not pre and not conj, cf.w(cmp_),
+                   f"the address match is subject to further conditions "
+                   f"{[norm(e) for e, _ in pre] + [norm(e) for e in conj]}: a region that is skipped although its "
+                   f"address matches gets a duplicate appended")
+        matched = test_if is not None and any(p for e, p in atoms(test_if.test, True) if is_match(e))
+        firsts = cf.cfg.nodes_for(test_if.body[0]) if matched else []
+        for c in apps:
+            an = set(f.nodes(c))
+            if via is None:
+                dom = normal_path(f.cfg, [f.cfg.entry], lambda n: n in an, lambda n: n in heads)
+                back = normal_path(f.cfg, list(an), lambda n: n in heads)
+                ok = matched and normal_path(f.cfg, firsts, lambda n: n in an, include_start=True) is None
+                why = "the match branch can fall through to regions.append"
+            else:
+                vn = set(f.nodes(via))
+                dom = normal_path(f.cfg, [f.cfg.entry], lambda n: n in an, lambda n: n in vn)
+                back = normal_path(f.cfg, list(an), lambda n: n in vn)
+                ok, why = _found_prevents_append(cf, lp, firsts, matched, f, via, c)
             ctx.ob("C17.R4", "register_region appends only after the search loop", dom is None and back is None, f.w(c),
                    "a region is appended before / while the existing regions are searched: a second announcement "
                    "creates a duplicate", f.describe(dom or back))
-            ifs = [a for a in ancestors(cmp_) if isinstance(a, ast.If)]
-            test_if = ifs[0] if ifs else None
-            flag = None
-            if test_if is None:  # comparison hoisted into a local flag that is tested afterwards
-                st_ = enclosing_stmt(cmp_)
-                if isinstance(st_, ast.Assign) and len(st_.targets) == 1 and isinstance(st_.targets[0], ast.Name) \
-                        and st_.value is cmp_ and single_def(f.tree, st_.targets[0].id) is cmp_:
-                    flag = st_.targets[0].id
-                    test_if = next((x for x in walk(lp) if isinstance(x, ast.If) and any(
-                        isinstance(e, ast.Name) and e.id == flag and p for e, p in atoms(x.test, True))), None)
-
-            def is_match(e):
-                return e is cmp_ or (flag is not None and isinstance(e, ast.Name) and e.id == flag)
-            if test_if is not None:
-                pre = facts(test_if, lp) + (facts(enclosing_stmt(cmp_), lp) if flag else [])
-                conj = [e for e, p in atoms(test_if.test, True) if not is_match(e)]
-                ctx.ob("C17.R4", "register_region: every region with the announced circuit address ends the search",
-                       not pre and not conj, f.w(cmp_),
-                       f"the address match is subject to further conditions "
-                       f"{[norm(e) for e, _ in pre] + [norm(e) for e in conj]}: a region that is skipped although its "
-                       f"address matches gets a duplicate appended")
-            ok = False
-            if test_if is not None and any(p for e, p in atoms(test_if.test, True) if is_match(e)):
-                firsts = f.cfg.nodes_for(test_if.body[0])
-                hit = normal_path(f.cfg, firsts, lambda n: n in an, include_start=True)
-                ok = hit is None
-            ctx.ob("C17.R4", "register_region never appends once a region with the address was found", ok, f.w(cmp_),
-                   "the match branch can fall through to regions.append")
+            ctx.ob("C17.R4", "register_region never appends once a region with the address was found", bool(ok), cf.w(cmp_), why)
     # who adds to session.regions
     adders = {}
     for g, st in fast_writers_of(repo, "regions"):
@@ -636,6 +767,47 @@ def r4(ctx):
         if g.qual == "Session.register_region":
             ctx.note("C17.R4: Session.register_region fires AddonManager.handle_region_registered on every call, also "
                      "when the region already existed (session.regions itself is unaffected)")
+
+
+def _found_prevents_append(hf: "Fn", lp, firsts, matched, f: "Fn", via, app_call):
+    """Search loop in helper hf: the match branch returns the found region (alone or as a tuple component),
+    the caller binds that component and appends only when it is None."""
+    if not matched:
+        return False, "the address comparison does not guard a branch of the search loop"
+    v = ap(lp.target)
+    good, idxs = set(), set()
+    for r in [n for n in walk(hf.tree) if isinstance(n, ast.Return) and n.value is not None]:
+        if isinstance(r.value, ast.Name) and r.value.id == v:
+            good |= set(hf.nodes(r))
+            idxs.add(None)
+        elif isinstance(r.value, ast.Tuple):
+            for i, e in enumerate(r.value.elts):
+                if isinstance(e, ast.Name) and e.id == v:
+                    good |= set(hf.nodes(r))
+                    idxs.add(i)
+    if len(idxs) != 1:
+        return False, f"helper {hf.fi.qual} does not return the found region in one fixed position"
+    idx = next(iter(idxs))
+    heads = set(hf.cfg.nodes_for(lp))
+    leak = normal_path(hf.cfg, firsts, lambda n: n in heads or n is hf.cfg.exit, lambda n: n in good, include_start=True)
+    if leak is not None:
+        return False, f"in {hf.fi.qual} a region with the announced address does not always end the search with a " \
+                      f"return of that region: {hf.describe(leak)}"
+    st = enclosing_stmt(via)
+    var = None
+    if isinstance(st, ast.Assign) and len(st.targets) == 1:
+        t = st.targets[0]
+        if idx is None and isinstance(t, ast.Name):
+            var = t.id
+        elif idx is not None and isinstance(t, (ast.Tuple, ast.List)) and idx < len(t.elts) and isinstance(t.elts[idx], ast.Name):
+            var = t.elts[idx].id
+    if var is None:
+        return False, f"result of {hf.fi.qual} is not bound to a name the append could be guarded by"
+    for e, pol in facts(app_call, f.tree):
+        t = is_none_test(e)
+        if (t and t[0] == var and t[1] == pol) or (isinstance(e, ast.Name) and e.id == var and not pol):
+            return True, ""
+    return False, f"regions.append is not guarded by `{var} is None`: a found region does not prevent the append"
 
 
 def run(ctx):
